@@ -178,8 +178,21 @@ def r3(ctx, L):
     i_up = [i for i, s in enumerate(L.batch_body) if any(x.get("k") == "mcall" and x["callee"] == "network::Network::update" for x in walk(s))]
     ctx.check("R04.3", "gradients-before-step", bool(i_up) and i_res < i_acc < i_up[0], "statement-order", c.loc(fn, L.batch_loop), "collect results, then sum, then update")
     # no early exit from the accumulation loop
-    outs = e4.outcomes(c, al["body"], lambda n: False)
-    ctx.check("R04.3", "accumulation-visits-every-result", all(k == e4.FALL for (k, _) in outs), "accumulation-loop-early-exit", c.loc(fn, al), "no break/continue/return in the accumulation loop")
+    # every result contributes exactly once to each accumulator (first-result assignment or the zipped add loop),
+    # whichever way control leaves the loop body (falling through or `continue`); no break / return
+    okv = True
+    for acc_h in (wh, bh_):
+        def contributes(n, acc_h=acc_h):
+            if n.get("k") == "assign" and e4.local_hid(n["l"]) == acc_h:
+                return True
+            if n.get("k") == "for":
+                nm_, base_ = chain_of(n["iter"])
+                return bool(nm_) and nm_[0] == "iter_mut" and e4.local_hid(base_) == acc_h
+            return False
+        outs = e4.outcomes(c, al["body"], contributes)
+        okv = okv and bool(outs) and all(k in (e4.FALL, ("continue", al["loop_id"])) and cnt == 1 for (k, cnt) in outs)
+    ctx.check("R04.3", "accumulation-visits-every-result", okv, "accumulation-loop-early-exit", c.loc(fn, al),
+              "each result is assigned or added exactly once per accumulator on every path; no break/return in the accumulation loop")
     ctx.check("R04.3", "results-in-order", chain_of(al["iter"])[0] == [], "results-walk:" + ".".join(chain_of(al["iter"])[0]), c.loc(fn, al), "for .. in results")
     # R04.4 one loss per sample
     pushes = lambda n: n.get("k") == "mcall" and n["name"] == "push" and e4.local_hid(n["recv"]) == lh and e4.local_hid(n["args"][0]) == g_l
